@@ -53,6 +53,13 @@ Example C18_validation_nontrivial :
 Proof. exact ex_accepted. Qed.
 Print Assumptions C18_validation_nontrivial.
 
+Example C18_validation_spec_nontrivial :
+  methods_wf ex_methods_singular /\ no_repeated_uuid_strings ex_methods_singular /\
+  enforce ex_methods_singular ex_settings = Accepted /\
+  enforce ex_methods_singular [mkSetting "pkg.Lib.CreateBook" ["note"]] = Rejected [("pkg.Lib.CreateBook", SFields [("note", FNotUuid4)])].
+Proof. exact ex_singular. Qed.
+Print Assumptions C18_validation_spec_nontrivial.
+
 Example C18_violations_nontrivial :
   violates ex_methods (mkSetting "pkg.Lib.Missing" []) /\
   violates ex_methods (mkSetting "pkg.Lib.WatchBooks" ["request_id"]) /\
@@ -106,7 +113,8 @@ Theorem C18_exec_uses_prefix : forall fs bs us st st' us',
 Proof. exact exec_suffix. Qed.
 Print Assumptions C18_exec_uses_prefix.
 
-(* sync client (which also serves the REST transport) and asyncio client carry the same blocks *)
+(* sync client (which also serves the REST transport) and asyncio client carry the same blocks: in the model one function
+   emits both, so this holds by computation; that the two emitted files really carry the model's blocks is the T1 tie *)
 Theorem C18_paths_agree : forall m settings, client_blocks true m settings = client_blocks false m settings.
 Proof. exact paths_agree. Qed.
 Print Assumptions C18_paths_agree.
@@ -119,6 +127,15 @@ Theorem C18_populate_refuted_repeated_string :
     assoc "request_ids" st' = Some (VList (chars u)) /\ assoc "request_ids" st' <> Some (VStr u).
 Proof. exact populate_refuted_repeated_string. Qed.
 Print Assumptions C18_populate_refuted_repeated_string.
+
+Example C18_population_hypotheses_nontrivial :
+  Forall (fun u : string => u <> "") ["u1"; "u2"] /\
+  find_field "request_id" ex_fields = Some f_req_id /\ rf_repeated f_req_id = false /\
+  left_unset_or_empty f_req_id [("name", VStr "x")] = true /\
+  left_unset_or_empty f_req_id [("request_id", VStr "mine")] = false /\
+  left_unset_or_empty f_opt_id [("opt_id", VStr "")] = false.
+Proof. exact ex_population_hyps. Qed.
+Print Assumptions C18_population_hypotheses_nontrivial.
 
 Example C18_population_nontrivial :
   let fs := ex_fields in
